@@ -34,6 +34,7 @@ type Step struct {
 	Query   string `json:"query,omitempty"`
 	Park    int    `json:"park,omitempty"` // startreq: park after this many Writes
 	AtStack bool   `json:"park_at_stack,omitempty"` // startreq: park right before the handler captures its dump
+	Hop     int    `json:"hop,omitempty"`           // spawn: 1 = through a generic function, 2 = through a closure inside a method
 	Full    bool   `json:"full_opts,omitempty"`
 }
 
@@ -86,6 +87,10 @@ func genQuery(r *core.Rng) (method, query string, valid bool) {
 	pick("similarity", validSim, badSim)
 	pick("augment", validAug, badAug)
 	pick("maxmem", validMem, badMem)
+	if r.Chance(0.15) {
+		// parameters the handler does not know, and known ones left empty (= default)
+		q = append(q, r.Pick("foo=bar", "debug=2", "augment=", "similarity=", "maxmem=", "x"))
+	}
 	return method, strings.Join(q, "&"), valid
 }
 
@@ -149,7 +154,7 @@ func GenPlan(r *core.Rng, seed, run uint64) *Plan {
 				burst = r.Range(2, 30)
 			}
 			for b := 0; b < burst && live < maxLive; b++ {
-				s := Step{Op: "spawn", Kind: kinds[r.Intn(len(kinds))], Creator: r.Intn(4), Locked: r.Chance(0.1)}
+				s := Step{Op: "spawn", Kind: kinds[r.Intn(len(kinds))], Creator: r.Intn(4), Locked: r.Chance(0.1), Hop: []int{0, 0, 0, 1, 2}[r.Intn(5)]}
 				if (s.Kind == "nilrecv" || s.Kind == "nilsend" || s.Kind == "selectnone") && leaks >= 2 {
 					s.Kind = "recv"
 				}
@@ -232,6 +237,7 @@ type entry struct {
 	flag    bool
 	started chan struct{}
 	fresh   bool // created, not yet observed running: its state and frames are not known
+	hop     int  // 1: body -> genericHop[T] -> rec ; 2: body -> (*entry).viaClosure -> closure -> rec
 }
 
 var reSelfID = regexp.MustCompile(`^goroutine (\d+) `)
@@ -254,7 +260,32 @@ func (e *entry) body() {
 		defer runtime.UnlockOSThread()
 	}
 	close(e.started)
-	rec(e.depth, e)
+	switch e.hop {
+	case 1:
+		genericHop(e.depth, e, struct{ a, b int }{1, 2})
+	case 2:
+		e.viaClosure()
+	default:
+		rec(e.depth, e)
+	}
+}
+
+// genericHop puts a generic instantiation on the stack (printed as
+// genericHop[...] by the runtime).
+//
+//go:noinline
+func genericHop[T any](n int, e *entry, v T) T {
+	rec(n, e)
+	return v
+}
+
+// viaClosure puts an anonymous function of a method on the stack.
+//
+//go:noinline
+func (e *entry) viaClosure() {
+	func() {
+		rec(e.depth, e)
+	}()
 }
 
 //go:noinline
@@ -508,9 +539,15 @@ func (c *checker) checkLibrary(dump []byte, reg []*entry, opts *stack.Opts) {
 			for i := 0; i <= e.depth; i++ {
 				want = append(want, "rec")
 			}
+			switch e.hop {
+			case 1:
+				want = append(want, "genericHop[...]")
+			case 2:
+				want = append(want, "(*entry).viaClosure.func1", "(*entry).viaClosure")
+			}
 			want = append(want, "(*entry).body")
 			if strings.Join(fr, ",") != strings.Join(want, ",") {
-				c.fail("registry", "goroutine %d (%s, depth %d): harness frames are %v, expected block, rec x%d, (*entry).body", e.id, e.kind, e.depth, clipList(fr), e.depth+1)
+				c.fail("registry", "goroutine %d (%s, depth %d, hop %d): harness frames are %v, expected %v", e.id, e.kind, e.depth, e.hop, clipList(fr), clipList(want))
 			}
 		}
 		if len(g.CreatedBy.Calls) == 0 || g.CreatedBy.Calls[0].Func.Name != creatorNames[e.creator] {
@@ -567,7 +604,7 @@ func balanced(body string) string {
 // augmentOn reports what a valid query asks for (default: on).
 func augmentOn(query string) bool {
 	for _, kv := range strings.Split(query, "&") {
-		if k, v, _ := strings.Cut(kv, "="); k == "augment" {
+		if k, v, _ := strings.Cut(kv, "="); k == "augment" && v != "" {
 			return v != "0"
 		}
 	}
@@ -665,7 +702,7 @@ func queryValid(method, query string) bool {
 		v = strings.ReplaceAll(v, "+", " ")
 		switch k {
 		case "similarity":
-			if !in(v, validSim) {
+			if v != "" && !in(v, validSim) {
 				return false
 			}
 		case "augment":
@@ -673,7 +710,7 @@ func queryValid(method, query string) bool {
 				return false
 			}
 		case "maxmem":
-			if n, err := strconv.Atoi(v); err != nil || n <= 0 {
+			if n, err := strconv.Atoi(v); v != "" && (err != nil || n <= 0) {
 				return false
 			}
 		}
@@ -686,7 +723,7 @@ func queryValid(method, query string) bool {
 func effectiveMaxmem(query string) int {
 	mm := 64 << 20
 	for _, kv := range strings.Split(query, "&") {
-		if k, v, _ := strings.Cut(kv, "="); k == "maxmem" {
+		if k, v, _ := strings.Cut(kv, "="); k == "maxmem" && v != "" {
 			if n, err := strconv.Atoi(v); err == nil {
 				mm = n
 			}
